@@ -54,6 +54,25 @@ func (c *Ctx) computeInfeasible() {
 				continue
 			}
 			if !c.knownNonNil(x, map[ssa.Value]bool{}) {
+				// a repeated test of a value below an edge that already decided it
+				last := b.Instrs[len(b.Instrs)-1]
+				decided := 0 // +1 known non-nil, -1 known nil
+				for _, e := range nonNilEdgesRaw(f, x) {
+					if e.B == b {
+						continue
+					}
+					if DominatedByEdge(f, last, e.B, e.K, PathQ{}) {
+						decided = 1
+					} else if DominatedByEdge(f, last, e.B, 1-e.K, PathQ{}) {
+						decided = -1
+					}
+				}
+				switch {
+				case decided == 1 && bin.Op == token.NEQ, decided == -1 && bin.Op == token.EQL:
+					infeasibleEdges[b] = 1 + 1
+				case decided == 1 && bin.Op == token.EQL, decided == -1 && bin.Op == token.NEQ:
+					infeasibleEdges[b] = 0 + 1
+				}
 				continue
 			}
 			if bin.Op == token.NEQ {
@@ -135,6 +154,37 @@ func (c *Ctx) doneObserved(call *ssa.Call) bool {
 	}
 	if Dominated(f, call, isDoneRecv, PathQ{}) {
 		return true
+	}
+	// an earlier Err() of the same context that was found non-nil (once non-nil, Err keeps returning that error)
+	for _, b := range f.Blocks {
+		iff := blockIf(b)
+		if iff == nil {
+			continue
+		}
+		bin, isBin := iff.Cond.(*ssa.BinOp)
+		if !isBin || (bin.Op != token.NEQ && bin.Op != token.EQL) {
+			continue
+		}
+		var x ssa.Value
+		switch {
+		case isNilConst(bin.Y):
+			x = bin.X
+		case isNilConst(bin.X):
+			x = bin.Y
+		default:
+			continue
+		}
+		k2, isCall := x.(*ssa.Call)
+		if !isCall || k2 == call || !k2.Call.IsInvoke() || k2.Call.Method.Name() != "Err" || !c.Same(k2.Call.Value, ctx) {
+			continue
+		}
+		edge := 0
+		if bin.Op == token.EQL {
+			edge = 1
+		}
+		if DominatedByEdge(f, call, b, edge, PathQ{}) {
+			return true
+		}
 	}
 	// select case edge
 	ok := false
@@ -290,4 +340,37 @@ func (c *Ctx) wrapResultNonNil(f *ssa.Function, at ssa.Instruction, v ssa.Value,
 		return false
 	}
 	return false
+}
+
+// nonNilEdgesRaw: every edge on which v is non-nil by a direct comparison with nil.
+func nonNilEdgesRaw(f *ssa.Function, v ssa.Value) []ifEdge {
+	var out []ifEdge
+	for _, b := range f.Blocks {
+		iff := blockIf(b)
+		if iff == nil {
+			continue
+		}
+		bin, ok := iff.Cond.(*ssa.BinOp)
+		if !ok {
+			continue
+		}
+		var other ssa.Value
+		if bin.X == v {
+			other = bin.Y
+		} else if bin.Y == v {
+			other = bin.X
+		} else {
+			continue
+		}
+		if !isNilConst(other) {
+			continue
+		}
+		switch bin.Op {
+		case token.NEQ:
+			out = append(out, ifEdge{b, 0})
+		case token.EQL:
+			out = append(out, ifEdge{b, 1})
+		}
+	}
+	return out
 }
